@@ -383,6 +383,17 @@ pub fn ellipse_event(rng: &mut Rng, depth: u8, dd: u8, lon: f64, lat: f64, a: f6
   let wit = if a == b && res.is_some() { cone_witnesses(rng, depth, lon, lat, a, 80) } else { vec![] };
   m.insert("wit".into(), Value::Array(wit.iter().map(|c| json!({"b": c.b, "p": c.p})).collect()));
   m.insert("slack".into(), json!(cells.as_ref().map_or(-1, |cs| worst_slack(cs, lon, lat, a))));
+  // attribution only (see cone_event): centre in a polar cap, penetration of the uncovered witness cells
+  let mut pen: f64 = 0.0;
+  if let Some(cs) = &cells {
+    let covered = |w: &C| cs.iter().any(|c| c.b == w.b && c.p.len() <= w.p.len() && c.p[..] == w.p[..c.p.len()]);
+    for w in wit.iter().filter(|w| !covered(w)) {
+      let dmin = cell_border_points(w, 15).iter().map(|(l, b)| ang_dist(*l, *b, lon, lat)).fold(f64::MAX, f64::min);
+      pen = pen.max((a - dmin) / a);
+    }
+  }
+  m.insert("pen".into(), json!((pen * 1000.0).round() as i64));
+  m.insert("ccap".into(), json!((lat.abs() > 0.7297276562269663) as u8));
   Some(ev)
 }
 
